@@ -11,6 +11,7 @@ import (
 	carv2 "github.com/ipld/go-car/v2"
 	"github.com/ipld/go-car/v2/index"
 	"github.com/multiformats/go-multicodec"
+	"github.com/multiformats/go-multihash"
 	"github.com/multiformats/go-varint"
 	"github.com/urfave/cli/v2"
 )
@@ -145,7 +146,10 @@ func IndexCar(c *cli.Context) error {
 		if err != nil {
 			return err
 		}
-		records = append(records, index.Record{Cid: c, Offset: uint64(sectionOffset)})
+		// Like carv2.LoadIndex (and so `car index create`), leave identity CIDs out of the index.
+		if c.Prefix().MhType != multihash.IDENTITY {
+			records = append(records, index.Record{Cid: c, Offset: uint64(sectionOffset)})
+		}
 		if _, err := c.WriteBytes(outStream); err != nil {
 			return err
 		}
